@@ -113,13 +113,99 @@ def record(ctx, nruns, nsteps):
     return events
 
 
+# ------------------------------------------------------------------ correlation functions of non-scalar variables (spec/Corr.tla)
+
+CORR_VS = [[1, 2, 2], [2, -2, 1], [2, 4, 4], [0, -6, 0], [-2, 1, 2], [0, 0, 3]]
+CORR_TYPES = {"coor": "coordinate", "vel": "velocity", "p2": "coordinate_p2"}
+CORR_MENU = [("vec", "coor"), ("vec", "p2"), ("vec", "vel"), ("unit", "coor"), ("unit", "p2"), ("scalar", "vel")]
+
+
+def corr_config(p):
+    if p["kind"] == "vec":
+        comp = ["  distanceVec {", "    group1 { dummyAtom (0,0,0) }", "    group2 { atomNumbers 1 }", "  }"]
+    elif p["kind"] == "unit":
+        comp = ["  distanceDir {", "    group1 { dummyAtom (0,0,0) }", "    group2 { atomNumbers 1 }", "  }"]
+    else:
+        comp = ["  distanceZ {", "    main { atomNumbers 1 }", "    ref { dummyAtom (0,0,0) }", "    axis (1,0,0)", "  }"]
+    cv = ["colvar {", "  name z"] + comp + ["  corrFunc on", "  corrFuncType %s" % CORR_TYPES[p["ctype"]], "  corrFuncLength %d" % p["clen"],
+                                           "  corrFuncStride %d" % p["cstride"], "  corrFuncNormalize off", "}"]
+    return "\n".join(cv) + "\n"
+
+
+def corr_scale(p):
+    if p["ctype"] == "p2":
+        return 2592
+    if p["ctype"] == "coor" and p["kind"] == "unit":
+        return 36
+    return 1
+
+
+def record_corr(ctx, nruns, nsteps):
+    rng = random.Random(ctx.seed + 1950)
+    events = []
+    base = os.path.join(ctx.workdir, "corr")
+    shown = 0
+    for ri in range(nruns):
+        wd = os.path.join(base, "r%d" % ri)
+        os.makedirs(wd, exist_ok=True)
+        kind, ct = CORR_MENU[ri % len(CORR_MENU)]
+        p = {"kind": kind, "ctype": ct, "clen": rng.choice([1, 2, 3]), "cstride": rng.choice([1, 1, 2, 3])}
+        sc = corr_scale(p)
+        d = vlib.Drv(cwd=wd)
+        try:
+            d.cmd(op="new", natoms=2, prefix="o", trajFreq=1, restartFreq=p["cstride"], step0=0)
+            r = d.cmd(op="config", text=corr_config(p))
+            if r.get("rc") != 0:
+                raise vlib.MachineryError("C19 correlation config rejected: %s" % r.get("errtext"))
+            events.append({"e": "Reset", "p": p})
+            first, runs, lastx = True, 1, [0, 0, 0]
+            af = os.path.join(wd, "o.z.corrfunc.dat")
+            for k in range(nsteps):
+                u = rng.random()
+                a = "First" if first else ("NewRun" if (u > 0.88 and runs < 3) else "Step")
+                x = lastx if a == "NewRun" else rng.choice(CORR_VS)
+                if a == "NewRun":
+                    runs += 1
+                if os.path.exists(af):
+                    os.remove(af)
+                r = d.cmd(op="step", pos=[[float(c) for c in x], [0, 0, 0]], newrun=(a == "NewRun"))
+                if r.get("op") != "step":
+                    ctx.violation("crash", "implementation died while computing a correlation function", {"p": p})
+                    break
+                d.cmd(op="flush")
+                first, lastx = False, x
+                acfn, acfs = -2, []
+                if os.path.exists(af):
+                    txt = open(af).read()
+                    m = re.search(r"Number of samples = (\d+)", txt)
+                    if m:
+                        acfn = int(m.group(1))
+                        rows = [l.split() for l in txt.splitlines() if l.strip() and not l.startswith("#")]
+                        lags = [int(t[0]) for t in rows]
+                        if lags != [p["cstride"] * i for i in range(p["clen"] + 1)]:
+                            ctx.violation("corr-lags", "correlation file lists lags %r for corrFuncLength %d, corrFuncStride %d" % (lags, p["clen"], p["cstride"]), {"p": p, "file": txt})
+                        acfs = [vlib.lat(float(t[1]) * acfn * sc, 1, 1e-6) for t in rows]
+                if a == "First" or (acfn == -2 and r["it"] % p["cstride"] != 0):
+                    acfn = -1          # the file is not due at the first call nor off the restart frequency
+                events.append({"e": a, "x": x, "acfn": acfn, "acfs": acfs, "hasv": False, "v": [0, 0, 0]})
+                if acfn > 0:
+                    ctx.nontriv(["corr", ri, k])
+                    if shown < 2:
+                        ctx.sample({"params": p, "event": events[-1]})
+                        shown += 1
+        finally:
+            d.close()
+        shutil.rmtree(wd, ignore_errors=True)
+    return events
+
+
 def run(ctx):
     ctx.rule = ("recorded executions: trajectory frequency in {1,2,3}, running average length in {0,2,3,4} and stride in {1,2}, a bias with an energy column added and deleted at run time, "
                 "new runs repeating a step; every line appended to the trajectory and running-average files during a call is an observation; non-trivial = a call that appended a label line or a running-average line")
     ctx.assumptions = [
         "files are flushed after every call and parsed by white space (no dependence on column widths)",
         "the running average file reports the mean and the standard deviation; they are compared through mean*L and stddev^2*L*(L-1), which are integers for integer values",
-        "only the coordinate autocorrelation function (not normalised, offset 0) is covered; velocity / P2 / cross correlation and corrFuncOffset are not; restraint centres and accumulated work: see C06",
+        "autocorrelation functions (not normalised, offset 0): coordinate of a scalar (Output.tla); coordinate, velocity and second Legendre polynomial of 3-vectors, unit vectors and scalars on the norm-3/6 lattice (Corr.tla); cross correlation between two variables, corrFuncOffset and normalisation are not covered; restraint centres and accumulated work: see C06",
     ]
     vlib.build()
     quick = ctx.quick()
@@ -130,6 +216,13 @@ def run(ctx):
         return
     ev = record(ctx, 40 if quick else 500, 14)
     r = vlib.validate_trace(ctx, "OutputTrace", "OutputTrace.cfg", ev, "output files")
+    # correlation functions of vector-valued variables: coordinate / velocity / P2 (spec/Corr.tla)
+    rc = vlib.tlc("MCCorr", "MCCorr.cfg" if quick else "MCCorr_thorough.cfg", workers=16, timeout=3000, xmx="16g")
+    ctx.add_tlc(rc, "MCCorr properties")
+    if rc.violation:
+        ctx.violation("model:corr:" + rc.violation, "Corr.tla violates %s" % rc.violation, {"tlc": vlib.counterexample(rc)})
+    evc = record_corr(ctx, 36 if quick else 480, 16)
+    vlib.validate_trace(ctx, "CorrTrace", "CorrTrace.cfg", evc, "correlation files", key="corr-trace-rejected")
     if r is not None and '"QUIRK"' in r.out:
         ctx.violation("stale-value-after-deleting-last-bias", "after the last bias of a variable is deleted the variable is inactive (C13 finding) and the trajectory file keeps printing its last computed value under later step numbers", {})
 
